@@ -255,6 +255,70 @@ fn table_checks(r: &mut Rep) {
     if !t.is_empty() {
         r.viol("C08|PageTable::is_empty|false-for-zero-table", "table rezero", "");
     }
+    // iter() / iter_mut() through the adapters that a hand-written iterator could implement itself (nth, skip, step_by, count,
+    // last, size_hint, take/skip combinations as used by clean-up): the slots they yield are the slots indexing addresses
+    {
+        for i in 0..512usize {
+            unsafe { *(&mut *t as *mut PageTable as *mut u64).add(i) = 0x1000 * (i as u64 + 1) | 1 };
+        }
+        let want: Vec<u64> = (0..512u64).map(|i| 0x1000 * (i + 1) | 1).collect();
+        let mut ks: Vec<usize> = (0..=12).chain([63, 64, 100, 255, 256, 257, 500, 510, 511, 512, 513, 600, usize::MAX]).collect();
+        ks.sort_unstable();
+        for &k in &ks {
+            r.ev(true);
+            let case = format!("table iter adapters k={}", k);
+            let exp_skip: Vec<u64> = want.iter().copied().skip(k).collect();
+            let a1 = catch(|| t.iter().skip(k).map(raw).collect::<Vec<u64>>());
+            let a2 = catch(|| t.iter_mut().skip(k).map(|e| raw(e)).collect::<Vec<u64>>());
+            if a1 != Ok(exp_skip.clone()) || a2 != Ok(exp_skip.clone()) {
+                r.viol("C08|PageTable::iter/iter_mut|skip-yields-other-slots-than-indexing", &case, "");
+            }
+            let n1 = catch(|| { let mut it = t.iter(); let x = it.nth(k).map(raw); (x, it.next().map(raw), it.count()) });
+            let n2 = catch(|| { let mut it = t.iter_mut(); let x = it.nth(k).map(|e| raw(e)); (x, it.next().map(|e| raw(e)), it.count()) });
+            let en = (want.get(k).copied(), k.checked_add(1).and_then(|j| want.get(j)).copied(), 512usize.saturating_sub(k.saturating_add(2)));
+            if n1 != Ok(en) || n2 != Ok(en) {
+                r.viol("C08|PageTable::iter/iter_mut|nth-then-next-yields-other-slots-than-indexing", &case, &format!("{:x?} {:x?} expected {:x?}", n1, n2, en));
+            }
+            if k >= 1 {
+                let es: Vec<u64> = want.iter().copied().step_by(k).collect();
+                if catch(|| t.iter().step_by(k).map(raw).collect::<Vec<u64>>()) != Ok(es.clone()) || catch(|| t.iter_mut().step_by(k).map(|e| raw(e)).collect::<Vec<u64>>()) != Ok(es) {
+                    r.viol("C08|PageTable::iter/iter_mut|step_by-yields-other-slots-than-indexing", &case, "");
+                }
+            }
+            // the shape clean-up uses: enumerate().take(end + 1).skip(start)
+            if k < 512 {
+                let e2: Vec<(usize, u64)> = (k..=(k + 7).min(511)).map(|i| (i, want[i])).collect();
+                let g1 = catch(|| t.iter().enumerate().take((k + 7).min(511) + 1).skip(k).map(|(i, e)| (i, raw(e))).collect::<Vec<_>>());
+                let g2 = catch(|| t.iter_mut().enumerate().take((k + 7).min(511) + 1).skip(k).map(|(i, e)| (i, raw(e))).collect::<Vec<_>>());
+                if g1 != Ok(e2.clone()) || g2 != Ok(e2) {
+                    r.viol("C08|PageTable::iter/iter_mut|enumerate-take-skip-pairs-indices-with-other-slots", &case, "");
+                }
+            }
+        }
+        let h1 = catch(|| (t.iter().size_hint(), t.iter().count(), t.iter().last().map(raw)));
+        let h2 = catch(|| {
+            let a = t.iter_mut().size_hint();
+            let b = t.iter_mut().count();
+            let c = t.iter_mut().last().map(|e| raw(e));
+            (a, b, c)
+        });
+        for h in [h1, h2] {
+            match h {
+                Ok(((lo, hi), 512, Some(l))) if lo <= 512 && hi.map_or(true, |x| x >= 512) && l == want[511] => {}
+                o => r.viol("C08|PageTable::iter/iter_mut|size_hint/count/last-wrong", "table iter adapters", &format!("{:x?}", o)),
+            }
+        }
+        // writes through adapted iter_mut land in the slots indexing reads
+        let _ = catch(|| { for (i, e) in t.iter_mut().skip(5).step_by(3).enumerate() { e.set_addr(PhysAddr::new(0x10_0000 + 0x1000 * i as u64), F::from_bits_retain(3)); } });
+        for i in 0..512usize {
+            let exp = if i >= 5 && (i - 5) % 3 == 0 { (0x10_0000 + 0x1000 * ((i - 5) / 3) as u64) | 3 } else { want[i] };
+            if raw(&t[i]) != exp {
+                r.viol("C08|PageTable::iter_mut|write-through-skip/step_by-lands-in-another-slot", &format!("table iter adapters slot {}", i), &format!("{:#x} expected {:#x}", raw(&t[i]), exp));
+                break;
+            }
+        }
+        t.zero();
+    }
     // zero() / is_empty() on sparse, clustered and striped populations: every pair of slots, every stride, runs at both ends
     {
         let vals = [0x8000_0000_1254_4003u64, 1, 0x1000, u64::MAX, 1 << 63];
